@@ -229,3 +229,12 @@ def m_opt_get_or_insert(ex, a, t):
 MODELS[:0] = [(r'(?:^|::)Sleep::is_elapsed$', m_sleep_is_elapsed), (r'(?:^|::)Sleep::deadline$', m_sleep_deadline),
               (r'^Option::<.*>::map_or::<', m_opt_map_or), (r'^Option::<.*>::map_or_else::<', m_opt_map_or_else), (r'^Option::<.*>::ok_or::<', m_opt_ok_or),
               (r'^Option::<.*>::or$', m_opt_or), (r'^Option::<.*>::get_or_insert$', m_opt_get_or_insert)]
+
+
+def m_opt_as_mut(ex, a, t):
+    o = target(a[0])
+    return Enum('Option', 'Some', [Ref(LCell(o.f[0]))]) if o.variant == 'Some' else Enum('Option', 'None')
+def m_opt_expect(ex, a, t):
+    if a[0].variant != 'Some': raise Panic('expect on None')
+    return a[0].f[0].v
+MODELS[:0] = [(r'^Option::<.*>::as_mut$', m_opt_as_mut), (r'^Option::<.*>::expect$', m_opt_expect)]
